@@ -1206,6 +1206,265 @@ fn stress(iter: usize) {
     println!("{}", s);
 }
 
+/// Generic free-running races: a random reachable state is built sequentially, then two real
+/// threads each perform a random operation at the same time, then the at-rest clauses of the
+/// properties are checked through the public API with an independent object count:
+/// status() exact (C11), live <= max_size without resize (C01), capacity = max_size after
+/// everything returned / Closed after close (C02, C06, C07), detach discipline (C09).
+fn stress2(seed: u64, iter: usize) {
+    use std::sync::atomic::{AtomicBool, AtomicI64, AtomicUsize as AU};
+    struct Shared2 {
+        live: AtomicI64,
+        peak: AtomicI64,
+        detached: Mutex<BTreeMap<usize, u32>>,
+        next: AU,
+        fail_recycle: AtomicBool,
+    }
+    struct O2(usize, Arc<Shared2>);
+    impl Drop for O2 {
+        fn drop(&mut self) {
+            let _ = self.1.live.fetch_sub(1, Ordering::SeqCst);
+        }
+    }
+    struct M2(Arc<Shared2>);
+    impl managed::Manager for M2 {
+        type Type = O2;
+        type Error = ();
+        async fn create(&self) -> Result<O2, ()> {
+            let n = self.0.live.fetch_add(1, Ordering::SeqCst) + 1;
+            let _ = self.0.peak.fetch_max(n, Ordering::SeqCst);
+            Ok(O2(self.0.next.fetch_add(1, Ordering::SeqCst), self.0.clone()))
+        }
+        async fn recycle(&self, _: &mut O2, _: &Metrics) -> RecycleResult<()> {
+            if self.0.fail_recycle.load(Ordering::Relaxed) {
+                Err(RecycleError::message("scripted"))
+            } else {
+                Ok(())
+            }
+        }
+        fn detach(&self, o: &mut O2) {
+            *self.0.detached.lock().unwrap().entry(o.0).or_insert(0) += 1;
+        }
+    }
+    type P2 = managed::Pool<M2>;
+    fn ready<F: std::future::Future>(f: F) -> Option<F::Output> {
+        use std::task::{Context, Poll, Wake, Waker};
+        struct W;
+        impl Wake for W {
+            fn wake(self: Arc<Self>) {}
+        }
+        let w = Waker::from(Arc::new(W));
+        let mut cx = Context::from_waker(&w);
+        let mut f = Box::pin(f);
+        match f.as_mut().poll(&mut cx) {
+            Poll::Ready(v) => Some(v),
+            Poll::Pending => None,
+        }
+    }
+    let nb = Timeouts { wait: Some(Duration::ZERO), create: None, recycle: None };
+    type Job = Box<dyn FnOnce() + Send>;
+    let slot: Arc<Mutex<Option<Job>>> = Arc::new(Mutex::new(None));
+    let go = Arc::new(AU::new(0));
+    let done = Arc::new(AU::new(0));
+    let stop = Arc::new(AtomicBool::new(false));
+    let partner = {
+        let (slot, go, done, stop) = (slot.clone(), go.clone(), done.clone(), stop.clone());
+        std::thread::spawn(move || {
+            let mut seen = 0;
+            loop {
+                while go.load(Ordering::Acquire) == seen {
+                    if stop.load(Ordering::Relaxed) {
+                        return;
+                    }
+                    std::hint::spin_loop();
+                }
+                seen += 1;
+                let job = slot.lock().unwrap().take().unwrap();
+                job();
+                done.store(seen, Ordering::Release);
+            }
+        })
+    };
+    // one operation, performed on whichever thread; objects obtained / given up go through `bag`
+    #[derive(Clone, Copy, Debug)]
+    enum Op {
+        Get,
+        Drop,
+        Take,
+        Resize(usize),
+        Close,
+        Retain(u64),
+        Status,
+    }
+    type Bag = Arc<Mutex<Vec<Object<M2>>>>;
+    fn perform(p: &P2, op: Op, bag: &Bag, taken: &Arc<Mutex<Vec<O2>>>, nb: &Timeouts) {
+        match op {
+            Op::Get => {
+                if let Some(Ok(o)) = ready(p.timeout_get(nb)) {
+                    bag.lock().unwrap().push(o);
+                }
+            }
+            Op::Drop => {
+                let o = bag.lock().unwrap().pop();
+                drop(o);
+            }
+            Op::Take => {
+                let o = bag.lock().unwrap().pop();
+                if let Some(o) = o {
+                    taken.lock().unwrap().push(Object::take(o));
+                }
+            }
+            Op::Resize(n) => p.resize(n),
+            Op::Close => p.close(),
+            Op::Retain(mask) => {
+                let mut i = 0;
+                let r = p.retain(|_, _| {
+                    i += 1;
+                    (mask >> (i - 1)) & 1 == 1
+                });
+                taken.lock().unwrap().extend(r.removed);
+            }
+            Op::Status => {
+                let _ = p.status();
+            }
+        }
+    }
+    let mut rng = Rng::new(seed);
+    let mut fails: Vec<String> = vec![];
+    let mut runs = 0usize;
+    let mut trial = 0usize;
+    for _ in 0..iter {
+        let sh = Arc::new(Shared2 {
+            live: AtomicI64::new(0),
+            peak: AtomicI64::new(0),
+            detached: Mutex::new(BTreeMap::new()),
+            next: AU::new(0),
+            fail_recycle: AtomicBool::new(false),
+        });
+        let max = 1 + rng.below(3) as usize;
+        let p: P2 = P2::builder(M2(sh.clone())).max_size(max).build().unwrap();
+        let bag_a: Bag = Arc::new(Mutex::new(vec![]));
+        let bag_b: Bag = Arc::new(Mutex::new(vec![]));
+        let taken: Arc<Mutex<Vec<O2>>> = Arc::new(Mutex::new(vec![]));
+        let mut script: Vec<String> = vec![format!("max_size {}", max)];
+        // sequential prefix
+        for _ in 0..rng.below(6) {
+            let op = match rng.below(10) {
+                0..=4 => Op::Get,
+                5..=7 => Op::Drop,
+                8 => Op::Take,
+                _ => Op::Status,
+            };
+            let bag = if rng.chance(50) { &bag_a } else { &bag_b };
+            perform(&p, op, bag, &taken, &nb);
+            script.push(format!("{:?}", op));
+        }
+        sh.fail_recycle.store(rng.chance(20), Ordering::Relaxed);
+        let mut pick = |rng: &mut Rng, allow_rc: bool| match rng.below(if allow_rc { 16 } else { 12 }) {
+            0..=3 => Op::Get,
+            4..=6 => Op::Drop,
+            7 => Op::Take,
+            8..=9 => Op::Retain(rng.below(8)),
+            10..=11 => Op::Status,
+            12..=14 => Op::Resize(rng.below(4) as usize),
+            _ => Op::Close,
+        };
+        let op_a = pick(&mut rng, true);
+        let op_b = pick(&mut rng, !matches!(op_a, Op::Resize(_) | Op::Close));
+        script.push(format!("RACE {:?} || {:?}", op_a, op_b));
+        let resized = matches!(op_a, Op::Resize(_) | Op::Close) || matches!(op_b, Op::Resize(_) | Op::Close);
+        {
+            let (p1, bag1, taken1, nb1) = (p.clone(), bag_a.clone(), taken.clone(), nb);
+            *slot.lock().unwrap() = Some(Box::new(move || perform(&p1, op_a, &bag1, &taken1, &nb1)));
+            trial += 1;
+            go.store(trial, Ordering::Release);
+            for _ in 0..rng.below(40) {
+                std::hint::spin_loop();
+            }
+            perform(&p, op_b, &bag_b, &taken, &nb);
+            while done.load(Ordering::Acquire) != trial {
+                std::hint::spin_loop();
+            }
+        }
+        runs += 1;
+        sh.fail_recycle.store(false, Ordering::Relaxed);
+        // ---- at rest
+        let held = bag_a.lock().unwrap().len() + bag_b.lock().unwrap().len();
+        let ntaken = taken.lock().unwrap().len();
+        let st = p.status();
+        let live = sh.live.load(Ordering::SeqCst) as usize;
+        let mut bad: Option<String> = None;
+        if st.size != held + st.available || live != st.size + ntaken || st.waiting != 0 {
+            bad = Some(format!("C11 status at rest {:?}, held {}, objects alive {} (of which {} taken by callers)", st, held, live, ntaken));
+        }
+        if bad.is_none() && !resized && sh.peak.load(Ordering::SeqCst) as usize > max + ntaken {
+            bad = Some(format!("C01 {} objects existed at once, max_size {}", sh.peak.load(Ordering::SeqCst), max));
+        }
+        if bad.is_none() {
+            let d = sh.detached.lock().unwrap();
+            if let Some((id, n)) = d.iter().find(|(_, n)| **n > 1) {
+                bad = Some(format!("C09 object {} detached {} times", id, n));
+            }
+            for o in taken.lock().unwrap().iter() {
+                if bad.is_none() && d.get(&o.0) != Some(&1) {
+                    bad = Some(format!("C09 object {} given to the caller with {:?} detach calls", o.0, d.get(&o.0)));
+                }
+            }
+        }
+        // everything comes back; then the capacity must be exactly max_size (or Closed)
+        bag_a.lock().unwrap().clear();
+        bag_b.lock().unwrap().clear();
+        if bad.is_none() {
+            let st = p.status();
+            let closed = p.is_closed();
+            let mut got = vec![];
+            let mut oks = 0;
+            let mut last = None;
+            for _ in 0..(st.max_size.min(8) + 1) {
+                match ready(p.timeout_get(&nb)) {
+                    Some(Ok(o)) => {
+                        oks += 1;
+                        got.push(o);
+                    }
+                    Some(Err(e)) => {
+                        last = Some(format!("{:?}", e));
+                        break;
+                    }
+                    None => {
+                        last = Some("Pending".into());
+                        break;
+                    }
+                }
+            }
+            if closed {
+                if st.max_size != 0 || st.available != 0 || oks != 0 || last.as_deref() != Some("Closed") {
+                    bad = Some(format!("C06 closed pool at rest: status {:?}, {} gets succeeded, then {:?}", st, oks, last));
+                }
+            } else if st.max_size <= 8 && (oks != st.max_size || last.as_deref() != Some("Timeout(Wait)")) {
+                bad = Some(format!("C02 capacity at rest: max_size {}, {} gets succeeded, then {:?}", st.max_size, oks, last));
+            }
+        }
+        if let Some(b) = bad {
+            fails.push(format!("{} | history: {}", b, script.join("; ")));
+            if fails.len() >= 5 {
+                break;
+            }
+        }
+    }
+    stop.store(true, Ordering::Relaxed);
+    let _ = partner.join();
+    let mut s = String::new();
+    let _ = write!(s, "{{\"runs\":{},\"fails\":[", runs);
+    for (i, f) in fails.iter().enumerate() {
+        if i > 0 {
+            s.push(',');
+        }
+        let _ = write!(s, "\"{}\"", f.replace('"', "'"));
+    }
+    s.push_str("]}");
+    println!("{}", s);
+}
+
 fn ints(v: &[i64]) -> String {
     let mut s = String::from("[");
     for (i, x) in v.iter().enumerate() {
@@ -1306,6 +1565,7 @@ fn main() {
             }
         }
         Some("stress") => stress(args[2].parse().unwrap()),
+        Some("stress2") => stress2(args[2].parse().unwrap(), args[3].parse().unwrap()),
         Some("exh") => {
             // exh <scenario index> <max depth> <max edges>
             let k: usize = args[2].parse().unwrap();
